@@ -28,14 +28,16 @@ func runC20(r *run) {
 		names := []string{"a.tpl", "d/b.tpl", "c.tpl"}
 		for i := 0; i < n; i++ {
 			g := rg.fork(uint64(i))
-			files := map[string]string{"a.tpl": "A0", "d/b.tpl": "B0{% include \"../a.tpl\" %}", "bad.tpl": "{% if %}"}
+			files := map[string]string{"a.tpl": "A0", "d/b.tpl": "B0{% include \"../a.tpl\" %}", "bad.tpl": "{% if %}", "e": "E0{% include \"a.tpl\" %}"}
 			var ops []string
 			ver := 0
 			for k := 0; k < 2+g.intn(maxLen-1); k++ {
 				nm := names[g.intn(len(names))]
 				switch g.intn(10) {
 				case 0, 1, 2, 3:
-					ops = append(ops, "C:"+hxe(g.pick([]string{nm, nm, "./" + nm, "bad.tpl", "missing.tpl"})))
+					// (a name is loaded as it is given and cached under what it resolves to: "e/x/.."
+					// is the file e, whose relative references then start from e/x)
+					ops = append(ops, "C:"+hxe(g.pick([]string{nm, nm, "./" + nm, "bad.tpl", "missing.tpl", "e", "e/x/..", "q/../e", "d/x/../b.tpl", "x/../" + nm})))
 				case 4:
 					ops = append(ops, "X:-")
 				case 5:
